@@ -250,10 +250,11 @@ inline void singleSetCase(Ctx& c, size_t ci, size_t fi, int bg)
 inline void sequenceCaseInner(Ctx& c, size_t ci, long idx);
 inline void sequenceCase(Ctx& c, size_t ci, long idx)
 {
-    if (idx % 4 == 1)
+    const uint64_t hl = mix64(static_cast<uint64_t>(idx), 0x10ca1e);  // (decorrelated from the class index, which is idx modulo the class count)
+    if (hl % 4 == 1)
     {
         // a quarter of the sequences run in a process whose global C++ locale groups digits (group sizes 1, 2, 3)
-        ScopedGlobalLocale g(static_cast<unsigned>(idx / 4));
+        ScopedGlobalLocale g(static_cast<unsigned>(hl >> 8));
         c.count("setter_sequences_under_a_global_locale_with_digit_grouping");
         sequenceCaseInner(c, ci, idx);
         return;
